@@ -217,53 +217,48 @@ pub fn exhaustive_case(idx: u64, rng: &mut Rng) -> Case {
 
 pub const EXHAUSTIVE_SIZE: u64 = 4 * 3 * 3 * 2 * 13 * 13 * 13 * 13;
 
-/// `line 0` together with `span >= 2` in one axis: the size estimate counts the item's span as 1 (known finding
-/// `estimate-zero-line-span`): placement can loop forever in a release build.  Family 0 replaces such spans by `span 1`
-/// (so that a release run cannot hang on the unchanged tree); family 1 keeps them (debug runs: the loop ends in an
-/// overflow panic).
-pub fn zero_line_span(c: &Case) -> bool {
-    c.children.iter().any(|ch| {
-        (0..2).any(|ax| {
-            let (a, b) = (ch.p[2 * ax], ch.p[2 * ax + 1]);
-            (a == (1, 0) && b.0 == 2 && b.1 >= 2) || (b == (1, 0) && a.0 == 2 && a.1 >= 2)
-        })
-    })
+/// Regression corpus, always the first cases of `cases` and `oracle`: the reproducers of the three repaired defects of
+/// the size estimate / last_of_type (`fix:` commits fc6abb3, 5b9f73f, 282bf7d) and close variants.
+pub fn corpus() -> Vec<Case> {
+    let one = |ec, er, flow, p: [(i64, i64); 4]| Case { ec, er, flow, children: vec![Child { kind: 0, p }] };
+    let a = (0, 0);
+    vec![
+        // grid_row: auto / -3   (estimate: the track before an end line given with an auto start)
+        one(0, 0, 0, [a, (1, -3), a, a]),
+        // grid_column: auto / -1 on zero explicit columns
+        one(0, 0, 0, [a, a, a, (1, -1)]),
+        one(2, 2, 1, [a, (1, -4), a, (1, -5)]),
+        // two children grid_row: -2 (last_of_type converted the index with the other axis' track counts)
+        Case { ec: 0, er: 0, flow: 0, children: vec![Child { kind: 0, p: [(1, -2), a, a, a] }, Child { kind: 0, p: [(1, -2), a, a, a] }] },
+        Case { ec: 1, er: 0, flow: 1, children: vec![Child { kind: 0, p: [a, a, (1, -3), a] }, Child { kind: 0, p: [a, a, (1, -3), a] }] },
+        // grid_column: 0 / span 3 on a 2x2 grid (estimate took the span from the raw placement: hang)
+        one(2, 2, 0, [a, a, (1, 0), (2, 3)]),
+        one(2, 2, 0, [a, a, (2, 3), (1, 0)]),
+        one(0, 0, 1, [(1, 0), (2, 3), a, a]),
+        one(1, 1, 3, [(2, 2), (1, 0), (1, 0), (2, 3)]),
+    ]
 }
 
-fn sanitize(mut c: Case, family: u64) -> Case {
-    if family == 0 {
-        for ch in c.children.iter_mut() {
-            for ax in 0..2 {
-                let (a, b) = (ch.p[2 * ax], ch.p[2 * ax + 1]);
-                if a == (1, 0) && b.0 == 2 {
-                    ch.p[2 * ax + 1] = (2, 1);
-                }
-                if b == (1, 0) && a.0 == 2 {
-                    ch.p[2 * ax] = (2, 1);
-                }
-            }
-        }
+pub fn nth_case(seed: u64, idx: u64) -> Case {
+    let corpus = corpus();
+    if (idx as usize) < corpus.len() {
+        return corpus[idx as usize].clone();
     }
-    c
-}
-
-pub fn nth_case(seed: u64, idx: u64, family: u64) -> Case {
     let mut rng = Rng::new(seed.wrapping_mul(0x9E37_79B9_7F4A_7C15).wrapping_add(idx));
-    let c = if idx % 3 == 2 {
+    if idx % 3 == 2 {
         let e = rng.below(EXHAUSTIVE_SIZE);
         exhaustive_case(e, &mut rng)
     } else {
         random_case(&mut rng)
-    };
-    sanitize(c, family)
+    }
 }
 
 /// larger random family for the oracle: up to 12 children, explicit counts 0..=6, lines in [-8,8], spans 1..=4
-pub fn oracle_case(seed: u64, idx: u64, family: u64) -> Case {
-    sanitize(oracle_case_raw(seed, idx), family)
-}
-
-fn oracle_case_raw(seed: u64, idx: u64) -> Case {
+pub fn oracle_case(seed: u64, idx: u64) -> Case {
+    let corpus = corpus();
+    if (idx as usize) < corpus.len() {
+        return corpus[idx as usize].clone();
+    }
     let mut rng = Rng::new(seed.wrapping_mul(0xD1B5_4A32_D192_ED03).wrapping_add(idx));
     match idx % 4 {
         0 => {
@@ -404,13 +399,12 @@ pub fn main(args: &[String]) {
     let out = std::io::stdout();
     let num = |i: usize| -> u64 { args[i].parse().unwrap() };
     match args[0].as_str() {
-        // vh c08 cases <seed> <n> [start] [family]
+        // vh c08 cases <seed> <n> [start]
         "cases" => {
             let (seed, n) = (num(1), num(2));
             let start = if args.len() > 3 { num(3) } else { 0 };
-            let family = if args.len() > 4 { num(4) } else { 0 };
             for idx in start..start + n {
-                let c = nth_case(seed, idx, family);
+                let c = nth_case(seed, idx);
                 {
                     let mut o = out.lock();
                     writeln!(o, "C {}", c.line()).unwrap();
@@ -439,13 +433,12 @@ pub fn main(args: &[String]) {
                 }
             }
         }
-        // vh c08 oracle <seed> <n> [start] [family]: the three clauses, directly on the implementation
+        // vh c08 oracle <seed> <n> [start]: the three clauses, directly on the implementation
         "oracle" => {
             let (seed, n) = (num(1), num(2));
             let start = if args.len() > 3 { num(3) } else { 0 };
-            let family = if args.len() > 4 { num(4) } else { 0 };
             for idx in start..start + n {
-                let c = oracle_case(seed, idx, family);
+                let c = oracle_case(seed, idx);
                 {
                     let mut o = out.lock();
                     writeln!(o, "START {idx} {}", c.line()).unwrap();
